@@ -16,7 +16,15 @@ PIPELINES = {"plain": [], "select": ["--select=. =v"], "sort": ["--sort-by=."], 
 HEADER_LINES = {"text": 1, "csv": 1}
 
 
+# tokens that begin like a value but are none and end at the next blank (beyond the letter of the quantifier, inside the statement: bytes that are
+# not part of any JSON value); each is reported at least once and leaves the values around it alone
+# (a word cut short right before a blank is left out: its diagnostic quotes the blank, and a quoted line break would split the report over two lines)
+MALFORMED_SCALARS = [b"-", b"1e999", b"-e", b"1e", b"1e+", b"falsy", b"trux", b"nul.", b"-a", b"-E5", b"-1e999", b"-}"]
+
+
 def garbage(r):
+    if r.random() < 0.12:
+        return r.choice(MALFORMED_SCALARS)
     n = r.choice([1, 1, 1, 2, 2, 3, 5, 9])
     if r.random() < 0.2:
         return bytes([r.choice(FAVOUR)]) * r.choice([1, 1, 2, 3])     # one byte class only (e.g. a run of form feeds)
